@@ -60,6 +60,7 @@ def run(tier):
     P.run()
     # mixed-type and non-string keys, deep nesting: implementation only (outside the model's string-keyed dicts)
     extra_probe(R)
+    keys_and_numbers_probe(R)
     graph_probe(R, 60 if tier == 'quick' else 400)
     from harness import probes
     probes.discriminator_probe(R, {'mutation'})
@@ -167,7 +168,7 @@ def extra_probe(R):
                 deserialize(tp, d, coerce=coerce)
             except ValidationError as e:
                 try:
-                    json.dumps(e.errors, default=str)
+                    json.dumps(e.errors)
                     e.errors
                 except Exception as e2:
                     R.violation(f"errors not computable for {tp} <- {d!r}: {type(e2).__name__}: {e2}",
@@ -197,6 +198,139 @@ def extra_probe(R):
         except RecursionError:
             if not R.known_match("recursion:RecursionError"):
                 R.violation(f"RecursionError at list nesting depth {depth}", dict(depth=depth))
+
+
+KEYS_SRC = """
+import re
+from dataclasses import dataclass, field
+from typing import Any, Dict, List, Mapping, Optional, Union, TypedDict, Annotated
+from apischema import properties, schema, discriminator, alias
+from apischema.metadata import flatten
+
+@dataclass
+class Plain:
+    x: int = 0
+    y: str = ""
+
+@dataclass
+class Rich:
+    x: float = 0.0
+    al: int = field(default=0, metadata=alias("a-l"))
+
+@dataclass
+class Pat:
+    x: int = 0
+    pp: Dict[str, int] = field(default_factory=dict, metadata=properties(pattern=re.compile("^a")))
+
+@dataclass
+class Pat2:
+    x: int = 0
+    pp: Dict[str, int] = field(default_factory=dict, metadata=properties(pattern=re.compile("^a")))
+    rest: Dict[str, Any] = field(default_factory=dict, metadata=properties)
+
+@dataclass
+class Add:
+    x: int = 0
+    rest: Dict[str, int] = field(default_factory=dict, metadata=properties)
+
+@dataclass
+class Flat:
+    p: Plain = field(default_factory=Plain, metadata=flatten)
+    z: int = 0
+
+class TD(TypedDict, total=False):
+    x: int
+
+@dataclass
+class Cat:
+    name: str = ""
+
+@dataclass
+class Dog:
+    name: str = ""
+    f: float = 0.0
+
+@dataclass
+class Nest:
+    inner: Plain = field(default_factory=Plain)
+    items: List[Rich] = field(default_factory=list)
+
+TYPES = [Plain, Rich, Pat, Pat2, Add, Flat, TD, Nest, Dict[str, int], Dict[int, int], Mapping[str, Any], Dict[str, Plain],
+         Annotated[Union[Cat, Dog], discriminator("kind")], List[Plain], Optional[Pat], Any]
+NUMS = [Annotated[int, schema(mult_of=0.5)], Annotated[int, schema(mult_of=3)], Annotated[float, schema(mult_of=0.5)],
+        Annotated[float, schema(mult_of=3)], Annotated[int, schema(min=0, max=10)], Annotated[float, schema(exc_min=0.5, exc_max=1e308)],
+        Annotated[Union[int, str], schema(mult_of=2, min_len=1)], List[Annotated[int, schema(mult_of=0.25)]], int, float,
+        Optional[Annotated[int, schema(mult_of=7)]]]
+"""
+
+
+def keys_and_numbers_probe(R):
+    """non-JSON keys (bytes, None, float, NaN, tuple, bool, frozenset, arbitrary objects) injected into objects, mappings and
+    discriminated unions, at the root and nested; non-JSON numbers against every numeric constraint"""
+    from apischema import deserialize, ValidationError
+    import copy
+    mod = pyrun.exec_module(KEYS_SRC)
+
+    class Obj:
+        def __repr__(self):
+            return "<Obj>"
+
+        def __hash__(self):
+            return 7
+    keys = [b"zz", b"a", None, 1.5, float("nan"), (1, 2), (b"a", None), True, 0, 10 ** 30, frozenset([1]), Obj(), "", "a1", "kind"]
+    bases = [{}, {"x": 1}, {"x": "bad"}, {"kind": "Cat", "name": "n"}, {"kind": "Dog", "name": "n", "f": 1},
+             {"inner": {"x": 1}, "items": [{"x": 1}]}, {"a1": 1, "x": 2}, {"k": {"x": 1}}]
+
+    def variants(base, key):
+        yield {**base, key: 1}
+        yield {key: 1, **base}
+        yield {**base, key: {"x": 1}}
+        for k, v in base.items():
+            if isinstance(v, dict):
+                yield {**base, k: {**v, key: 1}}
+            if isinstance(v, list) and v and isinstance(v[0], dict):
+                yield {**base, k: [{**v[0], key: None}]}
+        yield [dict(base, **{})] + [{key: 0}]
+
+    def attempt(tp, d, kw):
+        R.count("key_probe")
+        before = copy.deepcopy(d)
+        try:
+            deserialize(tp, d, **kw)
+        except ValidationError as e:
+            try:
+                json.dumps(e.errors)
+                str(e)
+            except Exception as e2:
+                R.violation(f"errors not computable / JSON-serializable for {tp} <- {d!r} {kw}: {type(e2).__name__}: {e2}",
+                            dict(type=str(tp), data=repr(d), options=kw))
+        except RecursionError:
+            raise
+        except Exception as e:
+            R.violation(f"deserialize({tp}, {d!r}, {kw}) raised {type(e).__name__}: {e}",
+                        dict(type=str(tp), data=repr(d), options=kw))
+        if repr(before) != repr(d):
+            R.violation(f"deserialize({tp}, ...) modified its input {before!r} -> {d!r}", dict(type=str(tp), data=repr(before), options=kw))
+
+    optsets = [dict(), dict(coerce=True), dict(additional_properties=True), dict(fall_back_on_default=True),
+               dict(coerce=True, additional_properties=True, fall_back_on_default=True)]
+    try:
+        for tp in mod.TYPES:
+            for base in bases:
+                for key in keys:
+                    for d in variants(base, key):
+                        for kw in optsets:
+                            attempt(tp, d, kw)
+                            if len(R.violations) > 5:
+                                return
+        nums = [10 ** 400, -10 ** 400, 10 ** 400 + 1, 2 ** 53 + 1, float("nan"), float("inf"), -float("inf"), True, False, 0, -0.0,
+                1e308, 5e-324, "3", "", None, [10 ** 400], [float("nan"), 1], b"1", 3.0, 10 ** 22, 1e22]
+        for tp in mod.NUMS:
+            for d in nums:
+                for kw in (dict(), dict(coerce=True)):
+                    attempt(tp, d, kw)
+    finally:
+        pyrun.drop_module(mod)
 
 
 def replay(data):
